@@ -4,7 +4,7 @@
 p=$1; n=$2; props=${3:-all}
 W=${SCRATCH:-/tmp/w5}
 for kind in neutral seeded; do
-  if [ $kind = neutral ]; then f=/verif/neutral/R-$p-$n/patch.diff; else f=/verif/seeded/$p-r8-$n/patch.diff; fi
+  if [ $kind = neutral ]; then f=/verif/neutral/${TW:-R}-$p-$n/patch.diff; else f=/verif/seeded/$p-${RD:-r8}-$n/patch.diff; fi
   git -C "$W" checkout -q -- . ; git -C "$W" clean -qfd; git -C "$W" checkout -q --detach "$(git -C /repo rev-parse HEAD)"
   git -C "$W" apply "$f" || { echo "$kind: PATCH DOES NOT APPLY"; continue; }
   echo "== $kind $f"
